@@ -65,6 +65,16 @@ def c06_slash(root: str, bass: str, i: int) -> bool:
     return r[0] == bass and RC.matches(r[1:], root, RC.FORMULAS[sh])
 
 
+def c06_bad_slash(root: str, bass: str, i: int) -> bool:
+    """a slash bass that is not a note name is malformed input: rejected with the (note-)format error"""
+    sh = pick(SLASH_POOL, i)
+    for ch in "m-/|":
+        assume(ch not in bass)
+    assume(not spelled(bass, 4))
+    assume(sh + "/" + bass not in ("m/M7", "6/9", "6/7"))
+    return raises_((FormatError, NoteFormatError), chords.from_shorthand, root + sh + "/" + bass)
+
+
 POLY_POOL = ["C", "Dm", "F#7", "Bbm7b5", "G6/9", "Em/M7", "Am", "E"]
 
 
@@ -123,6 +133,8 @@ def claims(tier):
         cl.append(Claim("slash[%s]" % SLASH_POOL[si], c06_slash, params={"K": 0 if q else 1, "si": si}, group="c06_slash", pre=[lambda root, bass, i: i == P["si"] and spelled(root, P["K"]) and spelled(bass, 1)], timeout=900 if q else 3000, bounds="root = letter%s; bass = letter + {#,b}^<=1 (both symbolic); chord type %r" % ("" if q else " + {#,b}^<=1", SLASH_POOL[si])))
     cl.append(Claim("polychord", c06_poly, pre=[lambda i, j: 0 <= i < len(POLY_POOL) and 0 <= j < len(POLY_POOL)], timeout=600, bounds="X|Y for X, Y in a pool of %d chords (realised)" % len(POLY_POOL)))
     cl.append(Claim("nc_and_lists", c06_nc_and_lists, pre=[lambda i, j: 0 <= i < 3 and 0 <= j < len(POLY_POOL)], timeout=300, bounds="NC, N.C., list input"))
+    for si in range(len(SLASH_POOL)):
+        cl.append(Claim("bad_slash[%s]" % SLASH_POOL[si], c06_bad_slash, params={"si": si, "K": 0, "L": 2 if q else 3}, group="c06_bad_slash", pre=[lambda root, bass, i: i == P["si"] and spelled(root, P["K"]) and 1 <= len(bass) <= P["L"]], timeout=900 if q else 3000, bounds="root = letter%s; chord type %r; bass: every unicode string of length 1..%d without m - / | that is not a note name" % ("", SLASH_POOL[si], 2 if q else 3)))
     cl.append(Claim("bad_suffix", c06_bad_suffix, pre=[lambda root, suf: spelled(root, 1) and 1 <= len(suf) <= (2 if q else 3)], timeout=600 if q else 2400, bounds="root = letter + {#,b}^<=1; suffix: every unicode string of length 1..%d without the alias/slash characters that is not a table key" % (2 if q else 3)))
     cl.append(Claim("bad_root", c06_bad_root, pre=[lambda s: 1 <= len(s) <= (3 if q else 4)], timeout=600 if q else 2400, bounds="every unicode string of length 1..%d whose first character is not A-G" % (3 if q else 4)))
     return cl
